@@ -8,7 +8,8 @@ and fed to the real receiver and to the model: delivered (cmd, payload, seqno) l
 run must agree.
 Oracle (model-independent): recorded REAL-cipher streams per suite; every single-byte flip / deletion / insertion
 position of the first two packets (sampled positions beyond), swaps, drops, replays, multi-edits; a fresh receiver keyed
-like the sender reads until it fails: what it delivered must be a prefix of what was sent.
+like the sender reads until it fails: what it delivered must be a prefix of what was sent.  Long streams (more than 2^16
+packets under one key set) with whole packets replayed / dropped / swapped at distance exactly 256 and 65536.
 """
 from pv import lib_packet as L
 from pv.core import hx, exc_site
@@ -72,7 +73,7 @@ def toy_stream(rng, pair, Message):
         c["maclen"] = max(c["maclen"], 1)
     tok = cfg_tok(c)
     pair.cfgs = {tok: c}
-    seq = rng.choice([0, 7, 0xFFFFFFFE, rng.randrange(1 << 32)])
+    seq = rng.choice([0, 7, 0xFFFFFFFE, 0xFE, 0xFFFE, 0xFFFFFE, 0x7FFFFFFE, rng.randrange(1 << 32)])
     z = rng.choice([None, None, rng.randrange(300)])
     setup_out = ["reset", "cfgout " + tok, "seqout %d" % seq, "kexout 1"] + (["zout %d" % z] if z is not None else [])
     setup_in = ["reset", "cfgin " + tok, "seqin %d" % seq, "kexin 1"] + (["zin %d" % z] if z is not None else [])
@@ -168,6 +169,48 @@ def replay_real(Packetizer, rng, c, m, comp, salt, seq, data, max_reads):
     return got, stop
 
 
+def long_stream_oracle(ctx, Packetizer, Message, c, m, salt, dists):
+    """more packets than the largest distance under ONE key set; whole packets are replayed / dropped / swapped at
+    exactly that distance (a sequence number with fewer than 32 effective bits would let them verify)"""
+    rng = ctx.rng
+    n = max(dists) + 8
+    sock = L.SinkSock()
+    ps = Packetizer(sock)
+    ps._initial_kex_done = True
+    L.wire_up(ps, Packetizer(L.SinkSock()), c, m, "none", salt=salt)
+    seq = rng.choice([0, 5, 0xFFFF0000, 0xFFFFFFF0, rng.randrange(1 << 32)])
+    L.set_seq(ps, out=seq)
+    bounds, sent = [0], []
+    for i in range(n):
+        payload = bytes([94]) + i.to_bytes(3, "big") + b"tiny"
+        ps.send_message(Message(payload))
+        bounds.append(len(sock.buf))
+        sent.append((94, payload[1:], (seq + i) % (1 << 32)))
+    stream = bytes(sock.buf)
+    pk = [stream[bounds[i]:bounds[i + 1]] for i in range(n)]
+    mode = "gcm" if "gcm" in c else "etm" if "etm" in m else "classic"
+    for d in dists:
+        i, j, k = 3, 2, 4
+        for what, parts, reads in (
+                (("replay-at-distance", d), pk[:i + d] + [pk[i]] + pk[i + d:], i + d + 3),
+                (("drop-run-of", d), pk[:j] + pk[j + d:], j + 4),
+                (("swap-at-distance", d), pk[:k] + [pk[k + d]] + pk[k + 1:k + d] + [pk[k]] + pk[k + d + 1:], k + 3)):
+            edited = b"".join(parts)
+            got, stop = replay_real(Packetizer, rng, c, m, "none", salt, seq, edited, reads)
+            ctx.case((c, m, what), True)
+            ctx.dist("oracle-long:%s:%s:%s" % (mode, what[0], stop))
+            if not is_prefix(got, sent):
+                bad = next(x for x, g in enumerate(got) if x >= len(sent) or g != sent[x])
+                ctx.fail("accepted-altered:%s:%s" % (mode, what[0]),
+                         {"cipher": c, "mac": m, "edit": list(what), "seq0": seq, "salt": salt, "packets": n,
+                          "payload_rule": "byte 94 | 3-byte index | b'tiny'"},
+                         "delivered %d messages; message %d is not the one sent at that position (got %r)" % (
+                             len(got), bad, got[bad][:2]))
+            elif stop is None and len(got) < len(sent):
+                ctx.fail("no-failure-after-prefix:%s" % mode, {"cipher": c, "mac": m, "edit": list(what)},
+                         "receiver neither failed nor waited after %d messages" % len(got))
+
+
 def run(ctx):
     from paramiko.packet import Packetizer
     from paramiko.message import Message
@@ -256,6 +299,18 @@ def run(ctx):
         if si < 2:
             ctx.sample({"oracle-stream": {"cipher": c, "mac": m, "compression": comp, "packets": len(sent),
                                           "bytes": len(stream), "edits": len(eds)}})
+    # ------------------------------------------------------------------ oracle: long streams under one key set
+    pick = lambda f: next(x for x in suites if f(x))  # noqa: E731
+    long_suites = [pick(lambda x: "ctr" in x[0] and "etm" in x[1]), pick(lambda x: "cbc" in x[0] and "aes" in x[0] and "etm" in x[1]),
+                   pick(lambda x: "cbc" in x[0] and "etm" not in x[1]), pick(lambda x: "gcm" in x[0])]
+    if ctx.thorough:
+        long_suites += [pick(lambda x: "ctr" in x[0] and "etm" not in x[1]), pick(lambda x: "3des" in x[0] and "etm" in x[1]),
+                        pick(lambda x: "aes256-ctr" in x[0] and "512-etm" in x[1])]
+    for li, (c, m) in enumerate(long_suites):
+        try:
+            long_stream_oracle(ctx, Packetizer, Message, c, m, 9000 + li, [256, 65536] + ([4096] if ctx.thorough else []))
+        except Exception as e:
+            ctx.fail("long-stream:" + exc_site(e), {"cipher": c, "mac": m}, repr(e))
     ctx.extra["exhaustive_positions_suites"] = len(suites) if ctx.thorough else len(reps)
 
 
